@@ -321,6 +321,23 @@ func (t *tamper) apply(kind int) string {
 		}
 		var ls []*gen.Node
 		leaves(m, &ls)
+		if t.draw(4, "mut:matrix-extra") == 3 {
+			// matrix-level extra keys are part of the signed matrix
+			if m.Kind == gen.KSeq {
+				st.Set("matrix", gen.Map().Set("setup", m).Set("x_injected", gen.Str("v")))
+				return "add.matrix-extra-key"
+			}
+			if m.Kind == gen.KMap {
+				for _, k := range m.Keys {
+					if k != "setup" && k != "adjustments" {
+						m.Del(k)
+						return "drop.matrix-extra-key"
+					}
+				}
+				m.Set("x_injected", gen.Str("v"))
+				return "add.matrix-extra-key"
+			}
+		}
 		switch t.draw(3, "mut:matrixop") {
 		case 0:
 			if len(ls) > 0 {
